@@ -1,4 +1,280 @@
-fn main() {
-    eprintln!("n2v-agent: not built yet");
-    std::process::exit(3);
+//! n2v-agent: the command that black-box (E2) build steps execute.
+//!
+//!   n2v-agent <step-id> v<ver> [free text...]
+//!
+//! It looks its step up in `.n2v/plan` (JSON lines, written by the harness
+//! before every invocation), checks the environment n2 gave it, logs
+//! `S`/`E` events to `.n2v/events` (O_APPEND, one write each; S after it has
+//! started, E before it exits, so a logged interval lies inside the true one),
+//! performs the step's effect and exits (or kills itself) as planned.
+#[path = "json.rs"]
+mod json;
+#[path = "rng.rs"]
+mod rng;
+#[path = "agent_stream.rs"]
+mod agent_stream;
+use agent_stream::make_stream;
+
+use json::J;
+use std::io::{Read, Write};
+use std::os::unix::fs::OpenOptionsExt;
+
+fn mono_ns() -> u64 {
+    let mut ts = libc::timespec { tv_sec: 0, tv_nsec: 0 };
+    unsafe { libc::clock_gettime(libc::CLOCK_MONOTONIC, &mut ts) };
+    ts.tv_sec as u64 * 1_000_000_000 + ts.tv_nsec as u64
 }
+
+fn log_event(line: &str) {
+    if let Ok(mut f) = std::fs::OpenOptions::new().append(true).create(true).custom_flags(libc::O_CLOEXEC).open(".n2v/events") {
+        let _ = f.write_all(line.as_bytes());
+    }
+}
+
+/// Content of a file as the model sees it: 16 hex digits -> that number, else FNV of the bytes.
+fn file_content(name: &str) -> Option<u64> {
+    let mut b = Vec::new();
+    std::fs::File::open(name).ok()?.read_to_end(&mut b).ok()?;
+    if b.len() == 17 && b[16] == b'\n' {
+        if let Ok(s) = std::str::from_utf8(&b[..16]) {
+            if let Ok(v) = u64::from_str_radix(s, 16) {
+                return Some(v);
+            }
+        }
+    }
+    Some(rng::fnv(&b))
+}
+
+fn strs(j: Option<&J>) -> Vec<String> {
+    j.and_then(|a| a.as_arr()).map(|a| a.iter().filter_map(|x| x.as_str().map(|s| s.to_string())).collect()).unwrap_or_default()
+}
+
+fn main() {
+    let args: Vec<String> = std::env::args().collect();
+    let id = args.get(1).cloned().unwrap_or_default();
+    let pid = std::process::id();
+    // ---- find the plan entry
+    let plan_text = std::fs::read_to_string(".n2v/plan").unwrap_or_default();
+    let mut header: Option<J> = None;
+    let mut step: Option<J> = None;
+    for line in plan_text.lines() {
+        if let Ok(j) = J::parse(line) {
+            if j.get("project_dir").is_some() {
+                header = Some(j);
+            } else if j.get("id").and_then(|x| x.as_str()) == Some(id.as_str()) {
+                // the version argument selects among generations of the same step
+                let ver_ok = match (j.get("ver").and_then(|x| x.as_str()), args.get(2)) {
+                    (Some(v), Some(a)) => v == a,
+                    _ => true,
+                };
+                if ver_ok || step.is_none() {
+                    step = Some(j);
+                }
+            }
+        }
+    }
+    let Some(step) = step else {
+        log_event(&format!("X {} {} {} no-plan-entry\n", id, pid, mono_ns()));
+        eprintln!("n2v-agent: no plan entry for {:?} in {:?}", id, std::env::current_dir());
+        std::process::exit(97);
+    };
+    // ---- environment checks (C16)
+    let mut problems: Vec<String> = Vec::new();
+    if let Some(h) = &header {
+        if let Some(want) = h.get("project_dir").and_then(|x| x.as_str()) {
+            let cwd = std::env::current_dir().map(|p| p.to_string_lossy().into_owned()).unwrap_or_default();
+            if cwd != want {
+                problems.push(format!("cwd={}", cwd));
+            }
+        }
+    }
+    // open descriptors: only 0,1,2 (plus the one used for listing)
+    if let Ok(rd) = std::fs::read_dir("/proc/self/fd") {
+        let mut extra = Vec::new();
+        for e in rd.flatten() {
+            let n: i32 = e.file_name().to_string_lossy().parse().unwrap_or(-1);
+            if n > 2 {
+                let target = std::fs::read_link(e.path()).map(|p| p.to_string_lossy().into_owned()).unwrap_or_default();
+                if !target.contains("/proc/") {
+                    extra.push(format!("{}->{}", n, target));
+                }
+            }
+        }
+        if !extra.is_empty() {
+            problems.push(format!("leaked-fds={}", extra.join(",")));
+        }
+    }
+    let link = |n: i32| std::fs::read_link(format!("/proc/self/fd/{}", n)).map(|p| p.to_string_lossy().into_owned()).unwrap_or_default();
+    if link(0) != "/dev/null" {
+        problems.push(format!("stdin={}", link(0)));
+    } else {
+        let mut b = [0u8; 1];
+        if std::io::stdin().read(&mut b).unwrap_or(1) != 0 {
+            problems.push("stdin-not-eof".into());
+        }
+    }
+    if link(1) != link(2) || !link(1).starts_with("pipe:") {
+        problems.push(format!("stdout={} stderr={}", link(1), link(2)));
+    }
+    let outs = strs(step.get("outs"));
+    for o in &outs {
+        if let Some(parent) = std::path::Path::new(o).parent() {
+            if !parent.as_os_str().is_empty() && !parent.is_dir() {
+                problems.push(format!("outdir-missing={}", o));
+            }
+        }
+    }
+    if let Some(r) = step.get("rsp").and_then(|r| r.as_arr()) {
+        let path = r[0].as_str().unwrap_or("");
+        let want = r[1].as_str().unwrap_or("");
+        match std::fs::read_to_string(path) {
+            Ok(got) if got == want => {}
+            Ok(got) => problems.push(format!("rspfile-content={:?}", got)),
+            Err(_) => problems.push("rspfile-missing".into()),
+        }
+    }
+    // the command line we were given must be the planned one
+    if let Some(want) = step.get("argv").and_then(|a| a.as_arr()) {
+        let want: Vec<String> = want.iter().filter_map(|x| x.as_str().map(|s| s.to_string())).collect();
+        if args[1..] != want[..] {
+            problems.push(format!("argv={:?}", &args[1..]));
+        }
+    }
+    let checks = if problems.is_empty() { "ok".to_string() } else { problems.join(";").replace([' ', '\n'], "_") };
+    let ver = args.get(2).cloned().unwrap_or_default();
+    log_event(&format!("S {} {} {} {} {}\n", id, pid, mono_ns(), checks, ver));
+
+    let sleep_ms = step.get("sleep_ms").and_then(|x| x.as_i64()).unwrap_or(0) as u64;
+    if sleep_ms > 0 {
+        std::thread::sleep(std::time::Duration::from_millis(sleep_ms));
+    }
+
+    // ---- output to stdout/stderr (C16): chunks of a deterministic stream
+    if let Some(chunks) = step.get("output").and_then(|o| o.as_arr()) {
+        let total: usize = chunks.iter().map(|c| c.get("len").and_then(|x| x.as_i64()).unwrap_or(0) as usize).sum();
+        let final_nl = step.get("output_final_newline").map(|b| *b == J::Bool(true)).unwrap_or(true);
+        let stream = make_stream(&id, total, final_nl);
+        let mut pos = 0;
+        for c in chunks {
+            let len = c.get("len").and_then(|x| x.as_i64()).unwrap_or(0) as usize;
+            let fd = c.get("fd").and_then(|x| x.as_i64()).unwrap_or(1);
+            let end = (pos + len).min(stream.len());
+            let piece = &stream[pos..end];
+            pos = end;
+            let mut off = 0;
+            while off < piece.len() {
+                let n = unsafe { libc::write(fd as i32, piece[off..].as_ptr() as *const libc::c_void, piece.len() - off) };
+                if n <= 0 {
+                    break;
+                }
+                off += n as usize;
+            }
+            let s = c.get("sleep_ms").and_then(|x| x.as_i64()).unwrap_or(0) as u64;
+            if s > 0 {
+                std::thread::sleep(std::time::Duration::from_millis(s));
+            }
+        }
+    }
+    for inc in strs(step.get("showincludes")) {
+        println!("Note: including file: {}", inc);
+    }
+    for line in strs(step.get("plain_output")) {
+        println!("{}", line);
+    }
+
+    // ---- effect
+    let fail = step.get("fail").and_then(|x| x.as_str()).map(|s| s.to_string());
+    let writes = step.get("writes").and_then(|x| x.as_i64()).unwrap_or(outs.len() as i64) as usize;
+    let limit = match fail.as_deref() {
+        Some("nothing") | Some("interrupt") => 0,
+        Some("some") => 1.min(writes),
+        _ => writes,
+    };
+    let cmd = step.get("cmd").and_then(|x| x.as_str()).unwrap_or("").to_string();
+    let reads = strs(step.get("reads"));
+    let wic = step.get("wic").map(|b| *b == J::Bool(true)).unwrap_or(false);
+    let mut h0 = rng::fnv(cmd.as_bytes());
+    if let Some(r) = step.get("rsp").and_then(|r| r.as_arr()) {
+        h0 = rng::fnv_combine(h0, rng::fnv(r[0].as_str().unwrap_or("").as_bytes()));
+        h0 = rng::fnv_combine(h0, rng::fnv(r[1].as_str().unwrap_or("").as_bytes()));
+    }
+    for f in &reads {
+        h0 = rng::fnv_combine(h0, rng::fnv(f.as_bytes()));
+        h0 = rng::fnv_combine(h0, file_content(f).unwrap_or(0xdead));
+    }
+    let gen_next = step.get("gen_next").and_then(|x| x.as_str()).map(|s| s.to_string());
+    let manifest = header.as_ref().and_then(|h| h.get("manifest")).and_then(|x| x.as_str()).unwrap_or("build.ninja").to_string();
+    for (i, o) in outs.iter().enumerate() {
+        if i >= limit {
+            break;
+        }
+        if *o == manifest {
+            if let Some(src) = &gen_next {
+                // generator: install the next generation (and its included files)
+                if let Ok(list) = std::fs::read_to_string(src) {
+                    for entry in list.lines() {
+                        if let Some((name, from)) = entry.split_once('\t') {
+                            if let Ok(text) = std::fs::read(from) {
+                                let _ = std::fs::write(name, text);
+                            }
+                        }
+                    }
+                }
+                let _ = std::fs::remove_file(src);
+            } else {
+                // touch
+                if let Ok(t) = std::fs::read(o) {
+                    let _ = std::fs::write(o, t);
+                }
+            }
+            continue;
+        }
+        let c = rng::fnv_combine(h0, rng::fnv(o.as_bytes()));
+        if wic && file_content(o) == Some(c) {
+            continue;
+        }
+        let old_mtime = std::fs::metadata(o).and_then(|m| m.modified()).ok();
+        let _ = std::fs::write(o, format!("{:016x}\n", c));
+        // a rewritten output must not keep its old mtime
+        if let (Some(old), Ok(new)) = (old_mtime, std::fs::metadata(o).and_then(|m| m.modified())) {
+            if new <= old {
+                if let Ok(f) = std::fs::File::options().write(true).open(o) {
+                    let _ = f.set_modified(old + std::time::Duration::from_nanos(1_000_000));
+                }
+            }
+        }
+    }
+    if fail.is_none() {
+        if let Some(t) = step.get("touch").and_then(|x| x.as_str()) {
+            if let Ok(f) = std::fs::File::options().write(true).open(t) {
+                let old = f.metadata().and_then(|m| m.modified()).ok();
+                let mut new = std::time::SystemTime::now();
+                if let Some(old) = old {
+                    if new <= old {
+                        new = old + std::time::Duration::from_nanos(1_000_000);
+                    }
+                }
+                let _ = f.set_modified(new);
+            }
+        }
+        if let Some(d) = step.get("depfile").and_then(|d| d.as_arr()) {
+            let _ = std::fs::write(d[0].as_str().unwrap_or(""), d[1].as_str().unwrap_or(""));
+        }
+    }
+    log_event(&format!("E {} {} {} {} {}\n", id, pid, mono_ns(), fail.as_deref().unwrap_or("ok"), ver));
+    let _ = std::io::stdout().flush();
+    if let Some(sig) = step.get("signal").and_then(|x| x.as_i64()) {
+        unsafe {
+            // die by the signal, parent shell included when asked to
+            libc::signal(sig as i32, libc::SIG_DFL);
+            if step.get("signal_shell").map(|b| *b == J::Bool(true)).unwrap_or(false) {
+                libc::kill(libc::getppid(), sig as i32);
+            }
+            libc::kill(libc::getpid(), sig as i32);
+        }
+        std::thread::sleep(std::time::Duration::from_millis(200));
+    }
+    let code = step.get("exit").and_then(|x| x.as_i64()).unwrap_or(if fail.is_some() { 1 } else { 0 });
+    std::process::exit(code as i32);
+}
+
